@@ -257,3 +257,16 @@ def run(ctx, model_ok):
             continue
         if r["status"] != "103" or r["stderr"] != want or r["stdout"] != "":
             ctx.violation(f"a name diagnostic through the command line: expected {want!r}", src, {"cli": r})
+
+    # names declared by earlier items of one pattern are in scope for the computed keys of later items
+    ck = [("shape := {\"kind\": \"circle\", \"circle\": 3}\n{\"kind\": k, k: size} := shape\nprint(k)\nprint(size)\n", "circle\n3\n", "0"),
+          ("k := \"square\"\nshape := {\"kind\": \"circle\", \"circle\": 3, \"square\": 4}\n{\n    {\"kind\": k, k: size} := shape\n    print(size)\n}\nprint(k)\n", "3\nsquare\n", "0"),
+          ("shape := {\"kind\": \"circle\"}\n{k2: size, \"kind\": k2} := shape\n", "", "103")]
+    cimpl, cdis = tie.run(ctx, [c[0] for c in ck], "pattern_keys", model_ok, project=tie.proj_full)
+    for (src, out, st), r in zip(ck, cimpl):
+        ctx.nontrivial(("pattern-keys", src[:30]))
+        if (r["stdout"], r["status"]) != (out, st) or (st == "103" and "'k2' is not defined" not in r["stderr"]):
+            c = core.run_cli(src)
+            if (c["stdout"], c["status"]) != (out, st) or (st == "103" and "'k2' is not defined" not in c["stderr"]):
+                ctx.violation(f"names declared by earlier items of a pattern and the computed keys of later items: expected stdout {out!r}, status {st}", src, {"cli": c})
+    tie.report_disagreements(ctx, cdis, "pattern_keys")
